@@ -17,8 +17,10 @@ def case_(
     default_source_: Observable[_T] | AnyFuture[_T] = default_source or empty()
 
     def factory(_: abc.SchedulerBase) -> Observable[_T]:
+        # a KeyError raised by the mapper itself is a failure (defer turns it into on_error), not a missing key
+        key = mapper()
         try:
-            result: Observable[_T] | AnyFuture[_T] = sources[mapper()]
+            result: Observable[_T] | AnyFuture[_T] = sources[key]
         except KeyError:
             result = default_source_
 
